@@ -27,10 +27,15 @@
    Deviations name behaviours of the code as built that differ from this
    intended design (none is enabled in the configuration that must hold):
      "CharPrefixCleanupPath"   Branches::get_cleanup_path compares names character-wise
+                               (the code before /repo's "fix: deleting a branch compared branch
+                               names character by character"; kept as a named variant)
+     "SubBranchKeepsDir"       get_cleanup_path as built now (segment-wise): nothing is removed
+                               when another branch lives below the deleted one
      "CleanupIgnoresDependents" cleanup of a location ignores files that versions of
                                other locations reference through base paths
      "CloneReadsHandleLocation" create_branch / shallow_clone read (handle's location,
-                               version) instead of (referenced branch, version)      *)
+                               version) instead of (referenced branch, version)
+                               (the code before /repo's fix of ref_path; kept as a named variant) *)
 EXTENDS LanceRefsOps, Json
 
 CONSTANTS NameSet,     \* which branch names are in play (TLC cfg files cannot hold tuples): see NamesOf
@@ -153,6 +158,9 @@ DeleteBranch(n) ==
            IF "CharPrefixCleanupPath" \in Deviations
            THEN LET d == CleanupDirAsBuilt(n, live \ {n}) IN
                 IF d = <<>> THEN {} ELSE {f \in files : f.own \in Names /\ IsSegPrefix(d, PathOf(f))}
+           ELSE IF "SubBranchKeepsDir" \in Deviations
+           THEN LET d == CleanupDirSegments(n, live \ {n}) IN
+                IF d = <<>> THEN {} ELSE {f \in files : f.own \in Names /\ IsSegPrefix(d, PathOf(f))}
            ELSE {f \in files : f.own = n}                      \* exactly the branch's own storage
      IN /\ files' = files \ removed
         /\ cont' = [x \in Locs |-> IF x = n THEN <<>> ELSE cont[x]]
@@ -236,12 +244,14 @@ OwnHistoryKept ==
   [][last'.op \in {"append", "delete"} =>
         \A v \in Versions(files, last'.subj) : ReadIn(cont', files', org', last'.subj, v) = Read(last'.subj, v)]_vars
 \* deleting a branch removes only files of that branch ...
-DeleteRemovesOnlyOwn == [][last'.op = "delete_branch" => \A f \in files \ files' : f.own = last'.subj]_vars
+\* (files that an earlier delete left behind -- possible only under a deviation -- belong to nobody)
+Leftover(f) == f.own \in Names \ live
+DeleteRemovesOnlyOwn == [][last'.op = "delete_branch" => \A f \in files \ files' : f.own = last'.subj \/ Leftover(f)]_vars
 \* ... and all of them (dataset.rs documents and tests that the branch directory is gone afterwards)
 DeleteRemovesAllOwn == [][last'.op = "delete_branch" => \A f \in files' : f.own # last'.subj]_vars
 \* every step touches only storage of its subject
 OnlyOwnStorageTouched ==
-  [][\A f \in (files \ files') \cup (files' \ files) : f.own = last'.subj]_vars
+  [][\A f \in (files \ files') \cup (files' \ files) : f.own = last'.subj \/ Leftover(f)]_vars
 
 \* The same properties for the as-built configurations: a violating step prints its history as a
 \* witness scenario ("WIT"), which the check replays on the real code.
@@ -253,7 +263,7 @@ IsolatedStep(onlyBranches) ==
 BranchIsolationW == [][IsolatedStep(FALSE) \/ Wit]_vars
 \* the literal reading of the property: the step is on a named branch or a shallow clone, not on the main table
 BranchIsolationOnBranchW == [][IsolatedStep(TRUE) \/ Wit]_vars
-DeleteRemovesOnlyOwnW == [][(last'.op = "delete_branch" => \A f \in files \ files' : f.own = last'.subj) \/ Wit]_vars
+DeleteRemovesOnlyOwnW == [][(last'.op = "delete_branch" => \A f \in files \ files' : f.own = last'.subj \/ Leftover(f)) \/ Wit]_vars
 DeleteRemovesAllOwnW == [][(last'.op = "delete_branch" => \A f \in files' : f.own # last'.subj) \/ Wit]_vars
 
 \* Scenario export: every maximal history is printed once (GEN configurations)
